@@ -22,6 +22,11 @@ from tqv import gen
 from tqv.core import Inconclusive, SubCheck, Violation, req
 from tqv.props import _c08_helpers as H
 
+# caller-owned arrays handed to the library must come back unchanged (see tqv/purity.py)
+from tqv.purity import install as _install_purity  # noqa: E402
+
+_install_purity('toqito.state_opt')
+
 PROPERTY = "C08"
 
 # ---- tolerances (DESIGN 1.3; residuals measured on the unchanged tree are listed in the final report) ----------
